@@ -1,5 +1,19 @@
+use nqverif::{corpus::*, rparse, schema::Sch, valid_op, valid_ts, gql::*};
 fn main() {
     let a: Vec<String> = std::env::args().collect();
+    if a.len() > 1 && a[1] == "corpus" {
+        let mut ts = rparse::parse_ts(SCHEMA_MAIN).unwrap();
+        ts.defs.extend(rparse::parse_ts(SCHEMA_EXT).unwrap().defs);
+        println!("schema findings: {:?}", valid_ts::validate(&ts));
+        let sch = Sch::from_doc(&ts).unwrap();
+        let mut op = rparse::parse_exec(OP_MAIN).unwrap();
+        op.defs.retain(|d| !matches!(d, ExecDef::Import{..}));
+        op.defs.extend(rparse::parse_exec(OP_FRAGS).unwrap().defs);
+        println!("op findings: {:?}", valid_op::validate(&sch, &op));
+        let op2 = rparse::parse_exec("query Q($a: Int, $a: Int, $u: User) { me { nope id { x } friends } ...F ...G @nope @skip users(filter: {zz: 1, kind: XX}, first: \"s\") { id } } fragment G on Kind { a } fragment H on Post { ...H } ").unwrap();
+        for f in valid_op::validate(&sch, &op2) { println!("  {:?}", f); }
+        return;
+    }
     let t = std::fs::read_to_string(&a[2]).unwrap();
     if a[1] == "ts" {
         match nitrogql_parser::parse_type_system_document(&t) { Ok(_) => println!("ok"), Err(e) => { let pe: nitrogql_error::PositionedError = e.into(); println!("{:?}", pe) } }
